@@ -31,3 +31,13 @@ Print Assumptions C15_history.
 Theorem C15_constructor_wf : forall name m, new_matcher dialects name = Some m -> wf_ms m /\ ms_default m = name.
 Proof. exact new_matcher_wf. Qed.
 Print Assumptions C15_constructor_wf.
+
+(* up to the offset of ids: a parse whose builder's id counter (and whatever else its stale state holds) is
+   k higher gives the same outcome -- same document with every id k higher, same errors, same matcher state,
+   same number of matcher calls.  Proved by instantiating the relational parametricity of the interpreter
+   (Paramcoq, ParamGlue.v) with equal tokens and builder states related by the shift. *)
+Require Import IdShift IdShiftParse.
+Theorem C15_id_offset : forall k stop m b src,
+  parse_source stop m (bshift k b) src = pshift k (parse_source stop m b src).
+Proof. exact parse_source_shift. Qed.
+Print Assumptions C15_id_offset.
